@@ -8,7 +8,7 @@ use unicode_width::UnicodeWidthChar;
 use crate::explore::{bfs, run_op, sweep, Base, Local, Trans};
 use crate::judge::*;
 use crate::ops::{apply, build, Op, P};
-use crate::props::{gen_bases, geoms, Guard};
+use crate::props::{gen_bases, geoms, with_poison, Guard};
 use crate::refscreen::{compare, fresh, Comp, Model, ALL_COMPS, DECCOLM};
 use crate::report::{Collector, Violation};
 use crate::seeds::*;
@@ -763,7 +763,7 @@ fn tab_ops() -> Vec<Op> {
     for h in ["", "0", "3", "2"] {
         v.push(csi(h, 'g'));
     }
-    v
+    with_poison(v)
 }
 
 pub fn c18(c: &Collector, g: &mut Guard) {
@@ -972,7 +972,7 @@ pub fn c14(c: &Collector, g: &mut Guard) {
     sweep(
         c,
         &bases,
-        |_| vec![Op::SaveCursor, Op::RestoreCursor, Op::Feed(vec!["\x1b7".into()], true), Op::Feed(vec!["\x1b8".into()], true), Op::Feed(vec!["\x1b7\x1b[H\x1b[0m\x1b8".into()], true)],
+        |_| with_poison(vec![Op::SaveCursor, Op::RestoreCursor, Op::Feed(vec!["\x1b7".into()], true), Op::Feed(vec!["\x1b8".into()], true), Op::Feed(vec!["\x1b7\x1b[H\x1b[0m\x1b8".into()], true)]),
         |c, t, local| {
             if !t.pre.saves.is_empty() {
                 local.count("restore_with_saved");
@@ -1082,7 +1082,7 @@ pub fn c12(c: &Collector, g: &mut Guard) {
         v
     };
     let spec = Spec {
-        geoms: vec![(3, 2), (10, 2)],
+        geoms: vec![(3, 3), (10, 2)],
         fills: vec![Fill::F0, Fill::F1],
         cursors: CursorSel::Corners,
         regions: RegionSel::Some,
@@ -1184,9 +1184,18 @@ pub fn c12(c: &Collector, g: &mut Guard) {
                     }
                 }
             }
-            for s in ["\x1b[?3;5h", "\x1b[4;20h", "\x1b[?6;7l", "\x1b[?25l\x1b[?25h", "\x1b[h", "\x1b[?l", "\x1b[?5h\x1b[?5h", "\x1b[?5l\x1b[?5l", "\x1b[?3l"] {
+            for s in ["\x1b[?3;5h", "\x1b[4;20h", "\x1b[?6;7l", "\x1b[?25l\x1b[?25h", "\x1b[h", "\x1b[?l", "\x1b[?5h\x1b[?5h", "\x1b[?5l\x1b[?5l", "\x1b[?3l", "\x1b[?25l\x1b[4h", "\x1b[4h\x1b[?4l"] {
                 v.push(Op::Feed(vec![s.to_string()], true));
             }
+            // state leaking out of a sequence that ends without dispatch
+            let mut w = Vec::new();
+            for n in [4u32, 20, 25, 6, 7, 5] {
+                for f in ['h', 'l'] {
+                    w.push(csi(&format!("{}", n), f));
+                    w.push(csi(&format!("?{}", n), f));
+                }
+            }
+            v.extend(with_poison(w));
             v
         },
         |c, t, local| {
@@ -1585,7 +1594,7 @@ pub fn c08(c: &Collector, g: &mut Guard) {
             v.push(csi("38;2;1;2", 'm'));
             v.push(csi("38;5", 'm'));
             v.push(csi("99999999999999999999", 'm'));
-            v
+            with_poison(v)
         },
         |c, t, local| {
             local.count("parser_path_transitions");
